@@ -206,6 +206,7 @@ func runC18(e *Env) {
 				return
 			}
 			t.Count("decision.checked", 1)
+			t.Tracef("%s Content-Type %q via %s: err=%v bound %+v", method, ctype, via, err, got)
 			switch {
 			case !bodyMethods[method]:
 				if err != nil || got.Name != "Q" || got.Extra != "only-in-query" {
@@ -313,6 +314,7 @@ func runC18(e *Env) {
 			return
 		}
 		t.Count("roundtrip."+format, 1)
+		t.Tracef("bound %+v err=%v", got, err)
 		if strings.ContainsAny(a.Name, "&=+;%<>\"' \t\n") || !isASCII(a.Name) || len(a.Tags) > 0 {
 			t.NonTrivial(fmt.Sprintf("%+v|%s|%s|%s", a, format, method, via))
 		}
@@ -378,6 +380,7 @@ func runC18(e *Env) {
 			return
 		}
 		t.Count("malformed.checked", 1)
+		t.Tracef("err=%v bound %+v", err, got)
 		if err != nil {
 			t.Count("malformed.rejected_with_error", 1)
 		}
